@@ -468,3 +468,30 @@ def bitstruct_grammar(rng):
     for n, e in fields:
         rules[n] = e
     return rules
+
+
+def unaligned_bits_grammar(rng):
+    """Bit-level grammars whose words need NOT be a whole number of bytes (variable-length bit fields, 9..15-bit words):
+    a byte input belongs to the language only if ALL its bits are derived."""
+    from collections import OrderedDict
+
+    BIT = ("alt", (("bit", 0), ("bit", 1)))
+    rules = OrderedDict()
+    shape = rng.choice(["fixed", "range", "plus", "fields", "prefix-byte"])
+    if shape == "fixed":
+        k = rng.choice([3, 5, 9, 10, 12, 15, 17])
+        rules["<start>"] = ("rep", ("nt", "<bit>"), k, k, None, "{n}")
+    elif shape == "range":
+        a = rng.choice([1, 3, 6, 9])
+        rules["<start>"] = ("rep", ("nt", "<bit>"), a, a + rng.choice([2, 5, 9]), None, "{n,m}")
+    elif shape == "plus":
+        rules["<start>"] = ("rep", ("nt", "<bit>"), 1, None, None, "+")
+    elif shape == "fields":
+        a = rng.randint(1, 6)
+        rules["<start>"] = ("seq", (("nt", "<hd>"), ("rep", ("nt", "<bit>"), 1, rng.choice([5, 9, 12]), None, "{n,m}")))
+        rules["<hd>"] = ("seq", tuple(("bit", rng.randint(0, 1)) for _ in range(a))) if a > 1 else ("bit", rng.randint(0, 1))
+    else:
+        rules["<start>"] = ("seq", (("lit", rng.choice([b"\x01", b"\xa5"])), ("rep", ("nt", "<bit>"), rng.choice([1, 4]), rng.choice([7, 12]), None, "{n,m}")))
+    rules["<bit>"] = BIT
+    return rules
+
